@@ -234,3 +234,32 @@ def validate_root_loads_cursor_and_walk_need(w: World):
             check(em.need_walk == nw0, "no root: the walk need is left alone")
     else:
         check(len(gets) == 0 and em.cursor == c0 and em.need_walk == nw0, "a half-specified root reads nothing")
+
+
+@lemma(props=["C14", "C04"], configs="sides", raises=["AssertionError"],
+       inline=["cloudsync.sync.state:SyncState.update"])
+def rename_event_reuses_the_prior_entry(w: World):
+    """L4.5: a rename reported by a path-style provider (event with a prior id) for an object the state knows under the
+    prior id, when nothing is known under the new id: the *same* entry carries on under the new id -- no second entry for
+    the renamed object -- and its other side (the peer and all last-synced markers) is untouched, so the rename is
+    mirrored as a rename and not as delete + create"""
+    state = w.state
+    side = w.changed
+    other = 1 - side
+    ev = w.event("ev")
+    assume(ev.oid is not None and len(ev.oid) > 0)
+    assume(ev.prior_oid is not None and len(ev.prior_oid) > 0 and ev.prior_oid != ev.oid)
+    assume(ev.otype == DIRECTORY or ev.otype == FILE)
+    prior = state.lookup_oid(side, ev.prior_oid)
+    assume(prior is not None and not prior.is_discarded)
+    assume(state.lookup_oid(side, ev.oid) is None)
+    o_oid, o_path, o_hash, o_sh, o_sp = prior[other].oid, prior[other].path, prior[other].hash, prior[other].sync_hash, prior[other].sync_path
+    s_sh, s_sp = prior[side].sync_hash, prior[side].sync_path
+    state.update(side, ev.otype, ev.oid, path=ev.path, hash=ev.hash, exists=ev.exists, prior_oid=ev.prior_oid)
+    e = state.lookup_oid(side, ev.oid)
+    check(e is prior, "the entry known under the prior id carries on under the new id")
+    check(prior[side].oid == ev.oid, "it now carries the new id")
+    check(prior[other].oid == o_oid and prior[other].path == o_path and prior[other].hash == o_hash, "its peer is untouched")
+    check(prior[other].sync_hash == o_sh and prior[other].sync_path == o_sp and prior[side].sync_hash == s_sh and prior[side].sync_path == s_sp,
+          "last-synced markers are untouched (the rename is still to be mirrored)")
+    check(truthy(prior[side].changed) and in_changeset(state, prior), "and it is pending")
